@@ -223,17 +223,27 @@ var c09SrcShow = []string{"5", "1", "7", "8", "null", "null", "1", "null"}
 
 // sinks: '@' = the source expression, '#' = the mutation applied to the copy held by the sink
 var c09Sinks = []string{
-	"t = @\n#t#",
-	"t = [@]\n#t[0]#",
-	"t = {k: @}\n#t.k#",
-	"t = [0, [@]]\n#t[1][0]#",
-	"t = []; t.push(@)\n#t[0]#",
+	"t = @; #t#",
+	"t = [@]; #t[0]#",
+	"t = {k: @}; #t.k#",
+	"t = [0, [@]]; #t[1][0]#",
+	"t = []; t.push(@); #t[0]#",
 	"g(@)",
 	"x = match (@) { z => { #z# } }",
 	"t = [@, @]\nfor (q in t) { #q# }",
+	// loop variables over the document's own containers, and what methods hand out
+	"w = @\nfor (q in $.arr) { #q# }",
+	"w = @\nfor (q, qi in $.arr) { #qi# }",
+	"w = @\nfor (kk, q in $.obj.k) { #q# }",
+	"w = @\nfor (kk, q in $) { if (q is number) { #q# } }",
+	"w = @\nfor (kk in $.obj) { #kk# }",
+	"w = @\nt = $.obj.k.pluck('z'); #t.z#",
+	"w = @\nt = $.arr.sort(); #t[0]#",
+	"w = @\nfor (q in $.s) { #q# }",
 }
 
-var c09Mutations = []string{" = 100", " += 1", "++"}
+// '_' = the place written to
+var c09Mutations = []string{"_ = 100", "_ += 1", "_++", "_--", "++_", "_ -= 2", "u = --_"}
 
 // VHC09CopyMatrix: a scalar read from any source (document member / index, variable,
 // member of a variable, missing members) and put into any sink (variable, array or
@@ -255,11 +265,11 @@ func VHC09CopyMatrix() {
 			break
 		}
 		j := i + 1 + indexByte(rest[i+1:], '#')
-		body += rest[:i] + rest[i+1:j] + mut
+		body += rest[:i] + replaceAll(mut, "_", rest[i+1:j])
 		rest = rest[j+1:]
 	}
 	body = replaceAll(body, "@", src)
-	gmut := replaceAll("p"+mut, "  ", " ")
+	gmut := replaceAll(mut, "_", "p")
 	prog := "function g(p) { " + gmut + " }\n{ v = 7; o = {k: 8}; a = {}\nprint " + src + "\n" + body + "\nprint " + src + ", v, o, a }"
 	v1 := 1.0
 	back, out, k := c09Run(prog, c09Doc(v1))
